@@ -72,6 +72,7 @@ class IdealReservoir:
             a_matrix = _build_matrix(kt_h2)
             pseudopressure[i + 1] = sparse.linalg.spsolve(a_matrix, b)
         self.pseudopressure = pseudopressure
+        self.__dict__.pop("recovery", None)  # recovery of an earlier simulation is stale
 
     def recovery_factor(self, time: ndarray | None = None, density=False) -> ndarray:
         """Calculate recovery factor over time.
@@ -214,6 +215,7 @@ class SinglePhaseReservoir(IdealReservoir):
             a_matrix = _build_matrix(kt_h2)
             pseudopressure[i + 1] = sparse.linalg.spsolve(a_matrix, b)
         self.pseudopressure = pseudopressure
+        self.__dict__.pop("recovery", None)  # recovery of an earlier simulation is stale
 
 
 @dataclass
